@@ -1,7 +1,14 @@
 (* run_line: one case line in, one result line out.  Evaluated by the extracted OCaml driver
    (volume) and inside coqc by vm_compute (cross-check of extraction and driver). *)
 From Coq Require Import Strings.String.
-From BP7 Require Import Base.Prelude Base.Decimal Model.Hex Run.Proto.
+From BP7 Require Import Base.Prelude Base.Decimal Model.Hex Model.DtnTime Run.Proto.
+
+Definition show_res {A} (show : A -> list byte) (r : res A) : list byte :=
+  match r with
+  | Ok a => join [S_ "OK"; show a]
+  | Err _ => S_ "ERR"
+  | Panic _ => S_ "PANIC"
+  end.
 
 Definition run_hex (args : list tok) : list byte :=
   match args with
@@ -21,11 +28,45 @@ Definition run_unhex (args : list tok) : list byte :=
   | _ => bad_case
   end.
 
+(* ---- K-time ---- *)
+Definition run_unix (m : ovf_mode) (args : list tok) : list byte :=
+  match args with
+  | [t] => match get_N t with Some n => show_res show_N (unix m n) | None => bad_case end
+  | _ => bad_case
+  end.
+Definition run_tstr (args : list tok) : list byte :=
+  match args with
+  | [t] => match get_N t with Some n => show_res show_bytes (string n) | None => bad_case end
+  | _ => bad_case
+  end.
+Definition run_tsfmt (args : list tok) : list byte :=
+  match args with
+  | [t; q] => match get_N t, get_N q with
+              | Some n, Some k => show_res show_bytes (timestamp_to_string n k)
+              | _, _ => bad_case end
+  | _ => bad_case
+  end.
+Definition run_now (m : ovf_mode) (args : list tok) : list byte :=
+  match args with
+  | [t] => match get_N t with Some n => show_res show_N (now m n) | None => bad_case end
+  | _ => bad_case
+  end.
+
+Definition run_cmd (m : ovf_mode) (cmd : tok) (args : list tok) : list byte :=
+  if tok_is cmd "HEX" then run_hex args
+  else if tok_is cmd "UNHEX" then run_unhex args
+  else if tok_is cmd "UNIX" then run_unix m args
+  else if tok_is cmd "TSTR" then run_tstr args
+  else if tok_is cmd "TSFMT" then run_tsfmt args
+  else if tok_is cmd "NOW" then run_now m args
+  else bad_case.
+
+(* an optional first token D / R selects the overflow mode of the build the line is compared with *)
 Definition run_line (line : list byte) : list byte :=
   match tokens line with
   | [] => bad_case
   | cmd :: args =>
-      if tok_is cmd "HEX" then run_hex args
-      else if tok_is cmd "UNHEX" then run_unhex args
-      else bad_case
+      if tok_is cmd "D" then match args with c :: a => run_cmd Checked c a | [] => bad_case end
+      else if tok_is cmd "R" then match args with c :: a => run_cmd Wrapping c a | [] => bad_case end
+      else run_cmd Checked cmd args
   end.
